@@ -1048,3 +1048,13 @@ for _c, _nm in ((4, "fetch_group_only"), (5, "set_group_only")):
 for _b, _nm in ((1, "notification_request_failure"), (2, "single_member"), (3, "failure_first")):
     O(id="C02.batch_" + _nm, props=["C02", "C04"], entry="harness_batch_shapes", defines=["BATCHCASE=%d" % _b], functions=["parse_message", "parse_json_array", "parse_json_rpc", "change_state"],
       symbolic="two state values", assumes=["the set-up add succeeds"], bounds="one batch (%s) after A added 'a'" % _nm.replace("_", " "), **_scn_rpc)
+
+O(id="C19.compress_buffers", props=["C19", "C06"], entry="harness_compress", reach=["compressed", "failed"], unwind=10,
+  functions=["websocket_compress"], unwindset={"verif_memcpy.0": 8, "deflate.0": 9},
+  symbolic="message length 0..4, the amount deflate consumes / produces, its return code, the produced bytes, context-takeover flag",
+  assumes=["allocations succeed", "the caller supplies an output buffer of 2 * length bytes (send_frame does)"], bounds="message <= 4 bytes (output buffer <= 8 bytes)",
+  **dict(_c19, stubs=_c19["stubs"] + ["deflate: contract stub (consumes <= avail_in, produces <= avail_out, writes what fits; any return code); deflateEnd/deflateReset: counters"]))
+
+O(id="C19.send_frame_compressed", props=["C19", "C10", "C12", "C06"], entry="harness_send_frame_compressed", reach=["sent_compressed", "sent_uncompressed"],
+  functions=["send_frame", "websocket_compress"], symbolic="message length 1..4, frame type text/binary, everything deflate does (amounts, bytes, return code)",
+  assumes=["allocations succeed"], bounds="message <= 4 bytes", **dict(_ws, unwind=10, stubs=_ws["stubs"] + ["deflate: contract stub (consumes <= avail_in, produces <= avail_out, writes what fits, any return code)"]))
